@@ -437,3 +437,7 @@ Definition beqv (b1 b2 : bst) : Prop :=
 Definition flat (h : list op) : list aop :=
   flat_map (fun o => match o with Enter t x l => [ASaveOp t; AEnterRest t x l] | _ => [AOp o] end) h.
 
+
+(* the thread a block belongs to *)
+Definition athr (a : aop) : tid :=
+  match a with AOp o => thr o | ASaveOp t => t | AEnterRest t _ _ => t end.
